@@ -15,6 +15,8 @@ Definition shift_in_range (t : ptime) (a : Z) : bool := wall_in_range (epoch_wal
 (* the specification: wrap modulo 24 hours *)
 Definition wrap (t : ptime) (a : Z) : ptime := time_of_tod ((tod t + a) mod us_day).
 
+Ltac split_ifs := repeat match goal with |- context [if ?c then _ else _] => destruct c eqn:? end.
+
 (* ---------------------------------------------------------------- time of day <-> fields *)
 Lemma valid_time_bounds t : valid_time t = true ->
   0 <= t_hour t <= 23 /\ 0 <= t_minute t <= 59 /\ 0 <= t_second t <= 59 /\ 0 <= t_microsecond t <= 999999.
@@ -34,6 +36,11 @@ Proof.
   unfold us_day. intros H. unfold time_of_tod, tod, valid_time. cbn [t_hour t_minute t_second t_microsecond].
   split; [lia|]. repeat (apply andb_true_iff; split); lia.
 Qed.
+
+Lemma tod_fields_bij :
+  (forall t, valid_time t = true -> 0 <= tod t < us_day /\ time_of_tod (tod t) = t) /\
+  (forall x, 0 <= x < us_day -> tod (time_of_tod x) = x /\ valid_time (time_of_tod x) = true).
+Proof. split; [intros t H; split; [exact (tod_range t H) | exact (time_of_tod_tod t H)] | exact tod_time_of_tod]. Qed.
 
 Lemma wrap_valid t a : valid_time (wrap t a) = true /\ tod (wrap t a) = (tod t + a) mod us_day.
 Proof.
@@ -196,6 +203,12 @@ Proof. unfold td_of_total, us_day. cbn [td_days]. lia. Qed.
 Lemma td_days_negative_subday u : - us_day <= u < 0 -> td_days (td_of_total u) = -1.
 Proof. unfold td_of_total, us_day. cbn [td_days]. lia. Qed.
 
+Lemma td_normal_form u :
+  (let x := td_of_total u in td_total x = u /\ 0 <= td_seconds x < 86400 /\ 0 <= td_microseconds x < 1000000) /\
+  (td_days (td_of_total u) = 0 <-> 0 <= u < us_day) /\
+  (- us_day <= u < 0 -> td_days (td_of_total u) = -1).
+Proof. split; [exact (td_of_total_spec u) | split; [exact (td_days_zero_iff u) | exact (td_days_negative_subday u)]]. Qed.
+
 Lemma timedelta_days_rejected t d : td_days d <> 0 ->
   time_add_timedelta t d = Raise E_TypeError /\ time_subtract_timedelta t d = Raise E_TypeError.
 Proof.
@@ -291,7 +304,7 @@ Qed.
 
 Lemma closest_returns_argument t a b :
   (time_closest t a b = a \/ time_closest t a b = b) /\ (time_farthest t a b = a \/ time_farthest t a b = b).
-Proof. destruct (closest_model_spec t a b) as [-> ->]. split; destruct (_ <? _) || destruct (_ >? _); auto. Qed.
+Proof. destruct (closest_model_spec t a b) as [-> ->]. split; split_ifs; auto. Qed.
 
 Definition dist (t x : ptime) : Z := Z.abs (tod x - tod t).
 
@@ -301,9 +314,7 @@ Lemma closest_by_distance_partial t a b :
   time_farthest t a b = (if dist t a >? dist t b then a else b).
 Proof.
   intros Ha Hb. destruct (closest_model_spec t a b) as [-> ->]. unfold dist, tod, whole_seconds. rewrite Ha, Hb.
-  split.
-  - destruct (_ <? _) eqn:E1; destruct (_ <? _) eqn:E2; try reflexivity; lia.
-  - destruct (_ >? _) eqn:E1; destruct (_ >? _) eqn:E2; try reflexivity; lia.
+  split; split_ifs; try reflexivity; lia.
 Qed.
 
 Lemma closest_by_distance_refuted :
@@ -313,12 +324,12 @@ Proof.
   exists (mkT 0 0 0 0), (mkT 0 0 0 100), (mkT 0 0 0 900). repeat split; try (vm_compute; congruence).
 Qed.
 
-(* even with whole-second distances that differ the microsecond fields are ignored: 0.999999 s vs 1.000000 s *)
+(* not only ties: 00:00:01 is 1 us from 00:00:00.999999 and 00:00:00 is 999999 us from it, yet the latter is "closest" *)
 Lemma closest_by_distance_refuted_across_seconds :
   exists t a b, valid_time t = true /\ valid_time a = true /\ valid_time b = true /\
     dist t a < dist t b /\ time_closest t a b = b /\ a <> b.
 Proof.
-  exists (mkT 0 0 0 999999), (mkT 0 0 1 999998), (mkT 0 0 0 0). repeat split; try (vm_compute; congruence).
+  exists (mkT 0 0 0 999999), (mkT 0 0 1 0), (mkT 0 0 0 0). repeat split; try (vm_compute; congruence).
 Qed.
 
 (* ---------------------------------------------------------------- the hypotheses used above are satisfiable *)
